@@ -10,5 +10,5 @@ def run(tier):
         "with and without projection/strict, and with BOTH columns selected where the other selected sample is missing or multiallelic in the column before or after the probed call; each scenario runs through the VCF text path and the BCF binary path (raw or "
         "BGZF, own encoder). Genotypes.ClassifyLaws (totality, phasing-independence, precedence) is checked by TLC on the "
         "whole alphabet. A lone '.' is the VCF missing value and is read as Missing (see DESIGN.md).",
-        ["MCCreate_gt_quick.cfg", "MCCreate_gt2_quick.cfg"], ["MCCreate_gt_t1.cfg", "MCCreate_gt2_t1.cfg"],
+        ["MCCreate_gt_quick.cfg", "MCCreate_gt2_quick.cfg", "MCCreate_alt.cfg"], ["MCCreate_gt_t1.cfg", "MCCreate_gt2_t1.cfg", "MCCreate_alt.cfg"],
         [SAB_SUM], env={"CREATE_ALSO": "bcf"})
